@@ -245,6 +245,9 @@ def roundtrip_specs(tier):
         for shape in shapes:
             for n in range(1, nmax + 1):
                 out.append(coll_spec(typ, shape, n, what="sizes"))
+            if shape == shapes[0]:
+                for n in (99, 100, 101, 128):  # three-digit group keys, counts around typical chunk sizes
+                    out.append(coll_spec(typ, shape, n, what="sizes-large"))
             for n, d in ((1, 3), (2, 3), (10, 12), (11, 13)):
                 out.append(coll_spec(typ, shape, n, declared=d, what="incomplete"))
         # every special value in every position
